@@ -3204,12 +3204,16 @@ func (c *pipelineConnClient) reader(conn net.Conn, stopCh <-chan struct{}, chs *
 				return err
 			}
 		}
+		skipBody := w.resp.SkipBody
 		if w.req.Header.IsHead() {
 			// The response to a HEAD request has no body, whatever its
 			// Content-Length says.
 			w.resp.SkipBody = true
 		}
-		if err = w.resp.Read(br); err != nil {
+		err = w.resp.Read(br)
+		// Raised for this exchange only: the caller may reuse resp for a GET.
+		w.resp.SkipBody = skipBody
+		if err != nil {
 			w.err = err
 			w.done <- struct{}{}
 			return err
@@ -3341,6 +3345,8 @@ func (t *transport) RoundTrip(hc *HostClient, req *Request, resp *Response) (ret
 
 	br := hc.AcquireReader(conn)
 	err = resp.ReadLimitBody(br, hc.MaxResponseBodySize)
+	// Raised for a HEAD exchange only: the caller may reuse resp for a GET.
+	resp.SkipBody = customSkipBody
 	if err != nil {
 		hc.ReleaseReader(br)
 		hc.CloseConn(cc)
